@@ -592,6 +592,11 @@ func (e *Engine) escalate(obls []*Obligation, workdir string, budgetS int) {
 	if len(und) == 0 || len(und) > 4 {
 		return
 	}
+	for _, o := range obls {
+		if o.Status == "failed" && o.Kind != "cover" {
+			return // the run has a refuted obligation anyway: no point in waiting
+		}
+	}
 	long := budgetS * 4
 	if long > 90 {
 		long = 90
